@@ -249,6 +249,43 @@ func genC04(p *Pkg) (map[string]string, error) {
 		{"args_setOwnStr", "argumentsObject", "setOwnStr"},
 		{"args_deleteStr", "argumentsObject", "deleteStr"},
 		{"args_defineOwnPropertyStr", "argumentsObject", "defineOwnPropertyStr"},
+		// String exotic object (Exotic.lean; Str and Idx copies)
+		{"str_getOwnPropStr", "stringObject", "getOwnPropStr"},
+		{"str_getOwnPropIdx", "stringObject", "getOwnPropIdx"},
+		{"str_setOwnStr", "stringObject", "setOwnStr"},
+		{"str_setOwnIdx", "stringObject", "setOwnIdx"},
+		{"str_defineOwnPropertyStr", "stringObject", "defineOwnPropertyStr"},
+		{"str_defineOwnPropertyIdx", "stringObject", "defineOwnPropertyIdx"},
+		{"str_deleteStr", "stringObject", "deleteStr"},
+		{"str_deleteIdx", "stringObject", "deleteIdx"},
+		{"str_hasOwnPropertyStr", "stringObject", "hasOwnPropertyStr"},
+		{"str_hasOwnPropertyIdx", "stringObject", "hasOwnPropertyIdx"},
+		// integer-indexed exotic objects (Typed.lean); deleteStr/deleteIdx are left out while their patch is pending
+		{"ta_getOwnPropStr", "typedArrayObject", "getOwnPropStr"},
+		{"ta_getOwnPropIdx", "typedArrayObject", "getOwnPropIdx"},
+		{"ta_getStr", "typedArrayObject", "getStr"},
+		{"ta_getIdx", "typedArrayObject", "getIdx"},
+		{"ta_setOwnStr", "typedArrayObject", "setOwnStr"},
+		{"ta_setOwnIdx", "typedArrayObject", "setOwnIdx"},
+		{"ta_setForeignStr", "typedArrayObject", "setForeignStr"},
+		{"ta_setForeignIdx", "typedArrayObject", "setForeignIdx"},
+		{"ta_hasOwnPropertyStr", "typedArrayObject", "hasOwnPropertyStr"},
+		{"ta_hasOwnPropertyIdx", "typedArrayObject", "hasOwnPropertyIdx"},
+		{"ta_hasPropertyStr", "typedArrayObject", "hasPropertyStr"},
+		{"ta_hasPropertyIdx", "typedArrayObject", "hasPropertyIdx"},
+		{"ta_defineIdxProperty", "typedArrayObject", "_defineIdxProperty"},
+		{"ta_defineOwnPropertyStr", "typedArrayObject", "defineOwnPropertyStr"},
+		{"ta_defineOwnPropertyIdx", "typedArrayObject", "defineOwnPropertyIdx"},
+		// lazy `prototype` of ordinary functions (FuncLazy.lean)
+		{"fn_addProto", "funcObject", "_addProto"},
+		{"fn_addPrototype", "funcObject", "addPrototype"},
+		{"fn_getOwnPropStr", "funcObject", "getOwnPropStr"},
+		{"fn_setOwnStr", "funcObject", "setOwnStr"},
+		{"fn_defineOwnPropertyStr", "funcObject", "defineOwnPropertyStr"},
+		{"fn_deleteStr", "funcObject", "deleteStr"},
+		{"fn_hasOwnPropertyStr", "funcObject", "hasOwnPropertyStr"},
+		{"fn_stringKeys", "funcObject", "stringKeys"},
+		{"fn_iterateStringKeys", "funcObject", "iterateStringKeys"},
 	}
 	for _, f := range singles {
 		c04Erase = !strings.HasPrefix(f.lean, "disp_")
